@@ -175,10 +175,14 @@ func (a *Application) filterModelsByProvider(ctx context.Context, models []*doma
 
 	providerProfile := a.createProviderProfile(providerType)
 
-	// Need to map endpoint URLs to their types for compatibility checking
+	// Need to map endpoint URLs to their types for compatibility checking. Only healthy
+	// endpoints count: a model that only an offline endpoint of this provider has is not
+	// available under the provider's prefix, even when another provider serves it
 	endpointTypes := make(map[string]string)
+	healthy := make(map[string]bool)
 	for _, ep := range endpoints {
 		endpointTypes[ep.URLString] = ep.Type
+		healthy[ep.URLString] = ep.Status == domain.StatusHealthy
 	}
 
 	providerModels := make([]*domain.UnifiedModel, 0)
@@ -186,17 +190,20 @@ func (a *Application) filterModelsByProvider(ctx context.Context, models []*doma
 		// Models can be available from multiple sources. Check if any of them
 		// match our provider constraint.
 		hasProvider := false
+		knownSource := false
 		for _, source := range model.SourceEndpoints {
 			if endpointType, ok := endpointTypes[source.EndpointURL]; ok {
+				knownSource = true
 				normalisedType := NormaliseProviderType(endpointType)
-				if providerProfile.IsCompatibleWith(normalisedType) {
+				if healthy[source.EndpointURL] && providerProfile.IsCompatibleWith(normalisedType) {
 					hasProvider = true
 					break
 				}
 			}
 		}
-		// Model aliases provide another way to determine provider association
-		if !hasProvider {
+		// Model aliases provide another way to determine provider association, for
+		// models whose sources cannot be tied to a configured endpoint
+		if !hasProvider && !knownSource {
 			for _, alias := range model.Aliases {
 				normalisedSource := NormaliseProviderType(alias.Source)
 				if providerProfile.IsCompatibleWith(normalisedSource) {
